@@ -468,7 +468,8 @@ func (c *ctx) oracleResults(x *ast.CallExpr, name string) []string {
 	var names []string
 	for i, k := range kinds {
 		if k == "" {
-			bad(x.Pos(), "result %d of oracle %s has unsupported type", i, name)
+			names = append(names, "") // outside the subset: may only be dropped or kept as an opaque local
+			continue
 		}
 		nm := fmt.Sprintf("%s_%d_%d", name, n, i)
 		c.leafTy[nm] = coqTy(k)
@@ -753,8 +754,8 @@ func (c *ctx) call(x *ast.CallExpr, k string) gexp {
 	}
 	if name := c.oracleName(x); name != "" {
 		rs := c.oracleResults(x, name)
-		if len(rs) != 1 {
-			bad(x.Pos(), "multi-value oracle %s used as a single value", name)
+		if len(rs) != 1 || rs[0] == "" {
+			bad(x.Pos(), "oracle %s used as a single value: several results or a result outside the subset", name)
 		}
 		return gexp{e: rs[0]}
 	}
@@ -1220,7 +1221,19 @@ func (c *ctx) declThen(gd *ast.GenDecl, rest []ast.Stmt) string {
 func (c *ctx) assign(x *ast.AssignStmt, rest []ast.Stmt) string {
 	if len(x.Lhs) > 1 && len(x.Rhs) == 1 {
 		if call, ok := x.Rhs[0].(*ast.CallExpr); ok {
-			if name := c.oracleName(call); name != "" && (x.Tok == token.DEFINE || x.Tok == token.ASSIGN) {
+			name := c.oracleName(call)
+			if sel, ok := call.Fun.(*ast.SelectorExpr); ok && name == "" {
+				if id, ok := sel.X.(*ast.Ident); ok {
+					if _, isPkg := c.info.Uses[id].(*types.PkgName); isPkg {
+						for _, o := range c.spec.Oracles {
+							if o == id.Name+"."+sel.Sel.Name {
+								name = sel.Sel.Name
+							}
+						}
+					}
+				}
+			}
+			if name != "" && (x.Tok == token.DEFINE || x.Tok == token.ASSIGN) {
 				rs := c.oracleResults(call, name)
 				if len(rs) != len(x.Lhs) {
 					bad(x.Pos(), "oracle %s: %d results for %d targets", name, len(rs), len(x.Lhs))
@@ -1228,8 +1241,11 @@ func (c *ctx) assign(x *ast.AssignStmt, rest []ast.Stmt) string {
 				var names []string
 				for i, l := range x.Lhs {
 					if fn, ok := c.fieldName(l); ok {
+						if rs[i] == "" {
+							bad(l.Pos(), "oracle result %d outside the subset assigned to %s", i, fn)
+						}
+						c.leaf(l, kindOf(c.info.Types[l].Type), "")
 						names = append(names, fn)
-						_ = i
 						continue
 					}
 					id, ok := l.(*ast.Ident)
@@ -1250,7 +1266,21 @@ func (c *ctx) assign(x *ast.AssignStmt, rest []ast.Stmt) string {
 						t = c.info.Uses[id].Type()
 					}
 					if kindOf(t) == "" {
-						bad(l.Pos(), "variable %s of unsupported type %s", id.Name, t)
+						// an opaque local: zero-argument selector / method chains hanging off it become inputs (like
+						// those of a parameter); it can also be passed on to other oracle calls
+						if c.info.Defs[id] == nil {
+							bad(l.Pos(), "re-assignment of %s of unsupported type %s", id.Name, t)
+						}
+						if c.opaqueL == nil {
+							c.opaqueL = map[string]bool{}
+						}
+						c.opaqueL[id.Name] = true
+						c.params[id.Name] = true
+						names = append(names, "")
+						continue
+					}
+					if rs[i] == "" {
+						bad(l.Pos(), "oracle result %d outside the subset assigned to %s", i, id.Name)
 					}
 					c.locals[id.Name] = t
 					names = append(names, cn(id.Name))
@@ -1268,14 +1298,26 @@ func (c *ctx) assign(x *ast.AssignStmt, rest []ast.Stmt) string {
 	if len(x.Lhs) != len(x.Rhs) {
 		bad(x.Pos(), "multi-value assignment from a call is not supported")
 	}
-	if len(x.Lhs) == 1 && x.Tok == token.ASSIGN {
+	if len(x.Lhs) == 1 && x.Tok != token.DEFINE {
 		if fn, ok := c.fieldName(x.Lhs[0]); ok {
 			k := kindOf(c.info.Types[x.Lhs[0]].Type)
 			if k == "" || k == "big" {
 				bad(x.Pos(), "assignment to field %s of unsupported type", fn)
 			}
 			c.leaf(x.Lhs[0], k, "") // its initial value is an input
-			v := c.expr(x.Rhs[0])
+			var v gexp
+			if x.Tok == token.ASSIGN {
+				v = c.expr(x.Rhs[0])
+			} else {
+				opmap := map[token.Token]token.Token{token.ADD_ASSIGN: token.ADD, token.SUB_ASSIGN: token.SUB, token.MUL_ASSIGN: token.MUL}
+				op, ok := opmap[x.Tok]
+				if !ok {
+					bad(x.Pos(), "unsupported assignment operator %s on a field", x.Tok)
+				}
+				be := &ast.BinaryExpr{X: x.Lhs[0], Op: op, Y: x.Rhs[0], OpPos: x.Pos()}
+				c.info.Types[be] = types.TypeAndValue{Type: c.info.Types[x.Lhs[0]].Type}
+				v = c.binary(be, k)
+			}
 			return guardWrap(v.g, "(let "+fn+" := "+v.e+" in "+c.stmts(rest)+")")
 		}
 	}
@@ -1287,6 +1329,7 @@ func (c *ctx) assign(x *ast.AssignStmt, rest []ast.Stmt) string {
 					c.opaqueL = map[string]bool{}
 				}
 				c.opaqueL[id.Name] = true
+				c.params[id.Name] = true
 				return c.stmts(rest)
 			}
 		}
